@@ -1,5 +1,12 @@
-"""C11 — broker-family check (see checks/brokerfam.py and DESIGN.md §4 C11)."""
+"""C11 — broker-family check (see checks/brokerfam.py and DESIGN.md §4 C11), plus the broker built WITH the
+`introspection` feature (harness introdb, C09's extra step): a panic of that broker is a C11 violation too."""
+import fcntl
+import json
+import os
+
 from checks import brokerfam
+from vlib import core
+from vlib.core import Outcome
 
 PROP = "C11"
 PINS = {
@@ -18,9 +25,36 @@ PINS = {
 MIXES = ["abuse","all","abuse","all"]
 
 
+def extra(o, tier, seed):
+    """the introspection handlers (RegisterIntrospection / QueryIntrospection / replies, cleanup on disconnect) only
+    exist with the cargo feature; C09's introdb step drives them against Broker/IntroDb.v (C09_introdb_no_panic):
+    what it finds that is a PANIC of the broker task belongs to C11 as well"""
+    from checks import c09
+    lock = open(os.path.join(core.WORK, "C09.lock"), "w")     # the same lock `./check C09` holds (shared work/C09)
+    fcntl.flock(lock, fcntl.LOCK_EX)
+    try:
+        o2 = Outcome("C09", tier, seed)
+        c09.introdb(o2, tier, seed)
+    finally:
+        fcntl.flock(lock, fcntl.LOCK_UN)
+    n = 0
+    for what, replay in o2.violations:
+        if "panic" in what.lower():
+            n += 1
+            o.violation("C11+C09:broker-with-introspection-feature-" + what.replace(" ", "-")[:150], replay)
+    for b in o2.broken:
+        if "introdb" in b["obligation"]:
+            o.obligation_broken(b["obligation"], b["detail"])
+    o.coverage["introspection_feature_broker"] = {"panics_found": n, "introdb": o2.coverage.get("introdb", {}).get("histories")}
+
+
 def run(tier, seed):
-    return brokerfam.run_check(PROP, "Props/C11.v", PINS, MIXES, tier, seed)
+    return brokerfam.run_check(PROP, "Props/C11.v", PINS, MIXES, tier, seed, extra=extra)
 
 
 def replay(path):
+    r = json.load(open(path))
+    if r.get("introdb_history"):
+        from checks import c09
+        return c09.replay(path)
     return brokerfam.replay(PROP, path)
